@@ -39,6 +39,8 @@ pub(crate) mod conn;
 pub(crate) mod streams;
 #[cfg(not(wasm_browser))]
 mod tls;
+#[cfg(all(iroh_verif, not(wasm_browser)))]
+pub(crate) use tls::verif_dial_happy_eyeballs;
 #[cfg(not(wasm_browser))]
 mod util;
 
